@@ -1,5 +1,6 @@
 import ServiceModel.Driver.Wire
 import ServiceModel.Model.Genesis
+import ServiceModel.Model.Restart
 /-!
 # Wire format of the query ops (harness/SPEC.md §4.1)
 
@@ -157,13 +158,13 @@ def genesisRecs (g : GenesisState) : List String :=
 def storeLines (s : State) : List String :=
   (stateLines s).filter (fun l => !(l.startsWith "A " || l.startsWith "S "))
 
-inductive GenOp | prep | export | validate | jsonrt | reimport
+inductive GenOp | prep | export | validate | jsonrt | reimport | restart
 deriving DecidableEq
 
 def genOpOf (name : String) : Option GenOp :=
   match name with
   | "prep" => some .prep | "export" => some .export | "validate" => some .validate
-  | "jsonrt" => some .jsonrt | "reimport" => some .reimport | _ => none
+  | "jsonrt" => some .jsonrt | "reimport" => some .reimport | "restart" => some .restart | _ => none
 
 /-- run a genesis op on the model: new state, and the lines of the block after the `OP` line
     (result, effects or `G` records, state lines), without `END` -/
@@ -181,5 +182,10 @@ def runGenOp (s : State) : GenOp → State × List String
     match importG s.cfg (exportG s) s.height s.time with
     | none => (s, ["R panic invalid-genesis"] ++ sortLines (storeLines (genesis s.cfg s.params s.height s.time)))
     | some s' => (s', ["R ok"] ++ sortLines ((genesisRecs (exportG s')).map ("G " ++ ·)) ++ sortLines (storeLines s'))
+  | .restart =>
+    -- the zero-height restart (Model/Restart.lean): the chain goes on from the imported state, same height and time
+    match restart s s.height s.time with
+    | none => (s, ["R panic restart"] ++ sortLines (stateLines s))
+    | some s' => (s', ["R ok"] ++ sortLines ((prep s).effs.map effStr) ++ sortLines (stateLines s'))
 
 end SM.Wire
